@@ -9,8 +9,9 @@ Open Scope N_scope.
 Definition bytes := list N.
 
 Definition two64 : N := 18446744073709551616.
-Definition wrap64 (x : N) : N := x mod two64.
-Definition wrap8 (x : N) : N := x mod 256.
+(* x mod 2^64 and x mod 2^8, computed by masking (ListLemmas.wrap64_spec / wrap8_spec) *)
+Definition wrap64 (x : N) : N := N.land x (N.ones 64).
+Definition wrap8 (x : N) : N := N.land x (N.ones 8).
 
 (* outcome of a modelled operation: normal return, Go error value, or panic *)
 Inductive outcome (A : Type) : Type :=
@@ -66,6 +67,10 @@ Fixpoint upd {A} (l : list A) (i : nat) (f : A -> A) : list A :=
   end.
 
 Definition setnth {A} (l : list A) (i : nat) (v : A) : list A := upd l i (fun _ => v).
+
+(* indexing with an N index without converting huge values to nat *)
+Definition nthN {A} (l : list A) (i : N) : option A :=
+  if i <? N.of_nat (length l) then nth_error l (N.to_nat i) else None.
 
 Definition nseq (n : N) : list N := map N.of_nat (seq 0 (N.to_nat n)).
 
